@@ -208,6 +208,30 @@ func main() {
 			Payload: &lorawan.CFListChannelMaskPayload{ChannelMasks: []lorawan.ChMask{{true}, {}}}}}
 		joinAccept(s, ja, "join-accept-payload") // C01-1 / C04-1 (known)
 	}
+	// "a value the encoder refuses is never one the specification allows": the 2.4 GHz region (RP002 ISM2400)
+	// allows these frequencies (coded in 200 Hz steps there); only NewChannelReq has that coding (C01-2 / C15-2, known)
+	for _, f := range []uint32{2403000000, 2425000000, 2479000000, 2423000000, 2424000000} {
+		refused := func(what string, p lorawan.PHYPayload) {
+			if _, err := p.MarshalBinary(); err != nil {
+				s.Fail(cases.GoFail{Key: fmt.Sprintf("spec-allows:ism2400:%s:%d", what, f), What: "the encoder refuses a frequency of the 2.4 GHz region: " + err.Error(),
+					Replay: map[string]interface{}{"api": "PHYPayload.MarshalBinary", "frequency": f, "in": what}})
+			}
+		}
+		port := uint8(0)
+		cmd := func(c lorawan.CID, pl lorawan.MACCommandPayload) lorawan.PHYPayload {
+			return lorawan.PHYPayload{MHDR: lorawan.MHDR{MType: lorawan.UnconfirmedDataDown, Major: lorawan.LoRaWANR1},
+				MACPayload: &lorawan.MACPayload{FHDR: lorawan.FHDR{DevAddr: lorawan.DevAddr{1, 2, 3, 4}}, FPort: &port,
+					FRMPayload: []lorawan.Payload{&lorawan.MACCommand{CID: c, Payload: pl}}}}
+		}
+		refused("cflist", lorawan.PHYPayload{MHDR: lorawan.MHDR{MType: lorawan.JoinAccept, Major: lorawan.LoRaWANR1},
+			MACPayload: &lorawan.JoinAcceptPayload{CFList: &lorawan.CFList{CFListType: lorawan.CFListChannel,
+				Payload: &lorawan.CFListChannelPayload{Channels: [5]uint32{f}}}}})
+		refused("RXParamSetupReq", cmd(lorawan.RXParamSetupReq, &lorawan.RXParamSetupReqPayload{Frequency: f}))
+		refused("DLChannelReq", cmd(lorawan.DLChannelReq, &lorawan.DLChannelReqPayload{Freq: f}))
+		refused("PingSlotChannelReq", cmd(lorawan.PingSlotChannelReq, &lorawan.PingSlotChannelReqPayload{Frequency: f}))
+		refused("BeaconFreqReq", cmd(lorawan.BeaconFreqReq, &lorawan.BeaconFreqReqPayload{Frequency: f}))
+		refused("NewChannelReq", cmd(lorawan.NewChannelReq, &lorawan.NewChannelReqPayload{ChIndex: 3, Freq: f, MaxDR: 5}))
+	}
 	for i := 0; i < n; i++ {
 		roundTrip(s, framefmt.DataFrame(r, framefmt.ValidDataOpt(r)), "data-valid")
 		if i%3 == 1 { // the same frames in other Go shapes: payload bytes split over several elements, empty non-nil lists
